@@ -67,7 +67,7 @@ func runTamperV2(r *ev.Run, cfg config, realFiles bool) {
 			content[strings.TrimSuffix(c.Path, ".new")] = c.Data
 		}
 	}
-	slots := v2Slots()
+	slots := v2Slots(owners())
 	var flipped []byte
 	var target string
 	g.getHook = func(path string, data []byte) []byte {
@@ -181,7 +181,7 @@ func runTamperV1(r *ev.Run, cfg config) {
 		r.Inconclusive("tamper v1: " + err.Error())
 		return
 	}
-	for _, s := range v1Slots(g.dir) {
+	for _, s := range v1Slots(g.dir, owners()) {
 		if s.rotated && !s.kind.HasGetAll() {
 			continue
 		}
